@@ -206,6 +206,21 @@ class World:
         exec(src, d)
         return d["_f"]
 
+    def import_fn(self, ctx, names, cid):
+        """a module function with arbitrary parameter names, brought in through .py("file")"""
+        d = ctx.mkdtemp()
+        World._modn = getattr(World, "_modn", 0) + 1
+        path = f"{d}/c09m_{World._modn}.py"
+        plain = [n for n in names if n != "klong"]
+        with open(path, "w") as fh:
+            fh.write(f"def f({', '.join(names)}):\n"
+                     f"    return _rec({cid}, {'klong' in names}, {'klong' if 'klong' in names else 'None'}, "
+                     f"({''.join(n + ', ' for n in plain)}))\n")
+        self.klong(f'.py("{path}")')
+        from klongpy.core import KGSym
+        e = self.klong._context[KGSym("f")]
+        getattr(e, "a", e).fn.__globals__["_rec"] = self._rec        # stored as a bare KGLambda
+
     def install_recorder(self):
         def r(x):
             self.rlog.append(x)
@@ -283,8 +298,10 @@ def run_pycall(ctx, drv, case):
     ar = sig_arity(sig)
     w = World(_ret_values(case, u))
     klong = w.klong
-    fn = w.make(sig, 1)
-    klong["f"] = fn
+    if case.get("imported"):
+        w.import_fn(ctx, case["imported"], 1)
+    else:
+        klong["f"] = w.make(sig, 1)
     frame = case["frame"]
     if where == "globaly":
         klong["y"] = 555
@@ -329,7 +346,7 @@ def run_pycall(ctx, drv, case):
     except Exception as e:
         result, raised = None, e
     # ---- oracle (no model)
-    key = f"pycall:{form}:{sig_class(sig)}"
+    key = f"pycall:{form}:{sig_class(sig)}" if not case.get("imported") else "import:positional"
     rets = w.rets
     if form in ("direct", "proj", "at"):
         exp_log = [(1, "klong" in sig, [canon(a) for a in exp_args])]
@@ -663,7 +680,7 @@ def run_history(ctx, drv, case):
                          and [canon(a) for a in calls[0][2]] == [canon(a) for a in kcalls[0][2]])
                     if not same:
                         key = "wrapper:projection" if cur[0] == "p" else (
-                            "wrapper:list-arg" if cls == "list-arg" and exc is not None else (
+                            "wrapper:list-arg" if cls == "list-arg" and exc is not None and not impl.startswith("err:arity") else (
                                 "wrapper:follows-redefinition" if redefined else "wrapper:eq-klong-call"))
                         ctx.oracle_fail(key, sub, f"{n}({txt}) -> {kimpl}", impl,
                                         "klong[name](*args) must return what the Klong call name(a;b;c) returns")
@@ -781,6 +798,18 @@ def run(ctx):
                         c = run_pycall(ctx, drv, gen_pycall(ctx.rng, sig, form, where))
                         if ctx.rng.random() < 0.01:
                             ctx.sample(c)
+        # module functions with arbitrary parameter names, remapped to x,y,z by .py (sys_fn._handle_import)
+        pool = ["a", "b", "c", "p", "q", "value", "y", "z"]
+        for ar in range(4):
+            for withk in (False, True):
+                for where in ("top", "nested", "ref"):
+                    for _ in range(1 if quick else 6):
+                        names = ctx.rng.sample(pool, ar)
+                        sig = (("klong",) if withk else ()) + tuple("xyz"[:ar])
+                        c = gen_pycall(ctx.rng, sig, "direct", where)
+                        c["imported"] = (["klong"] if withk else []) + names
+                        run_pycall(ctx, drv, c)
+                        ctx.bump("imported")
         nh = 500 if quick else 6000
         for h in range(nh):
             ops = gen_history(ctx.rng, ctx.rng.randrange(4, 16 if quick else 40))
